@@ -976,7 +976,7 @@ macro_rules! iter_prop {
                 case_strategy($kinds)
             }
             fn random_cases(tier: Tier) -> u64 {
-                if tier == Tier::Quick { 120_000 } else { 6_000_000 }
+                if tier == Tier::Quick { 800_000 } else { 12_000_000 }
             }
             fn execute(k: &IterCase, ctx: &mut Ctx) -> Verdict {
                 execute(k, ctx)
